@@ -1,5 +1,6 @@
 #!/bin/bash
 # usage: tools/seedtest.sh <PROP> <seed-dir-with patch.diff/demo.py> <name> [test files...]
+# (the one IPv6-only test that fails on the unchanged source inside a private network namespace is deselected)
 # Confirms a seeded defect in a scratch copy of /repo (never touches /repo), runs the property's quick check
 # against it, and files it under seeded/<name>/.
 set -u
@@ -14,7 +15,7 @@ cd $W/repo && git apply $SRC/patch.diff || { echo "PATCH DOES NOT APPLY"; rm -rf
 patched_demo=$(cd $W && PYTHONPATH=$W/repo/src PYTHONDONTWRITEBYTECODE=1 timeout 120 /venv/bin/python $SRC/demo.py > $W/demo_patched.out 2>&1; echo $?)
 tests_rc=skipped
 if [ -n "$TESTS" ]; then
-  tests_rc=$(cd $W/repo && unshare -n bash -c "ip link set lo up; ip route add 224.0.0.0/4 dev lo; PYTHONPATH=$W/repo/src timeout 900 /venv/bin/python -m pytest -q -p no:cacheprovider --timeout=300 $TESTS" > $W/tests.out 2>&1; echo $?)
+  tests_rc=$(cd $W/repo && unshare -n bash -c "ip link set lo up; ip route add 224.0.0.0/4 dev lo; PYTHONPATH=$W/repo/src timeout 900 /venv/bin/python -m pytest -q -p no:cacheprovider --timeout=300 --deselect tests/services/test_types.py::test_integration_with_listener_ipv6 $TESTS" > $W/tests.out 2>&1; echo $?)
 fi
 cd ${VERIF_HOME:-/verif}
 out=$(VERIF_REPO=$W/repo ./check $PROP quick 2>&1)
